@@ -81,6 +81,35 @@ func c18Measure(out []byte) (formats.Format, int) {
 	return f, indent
 }
 
+// option values that a case hands to several constructors (one per driver key, created on first use)
+type c18WShared struct {
+	opt writer.WriterOption
+	v   string
+}
+type c18RShared struct {
+	opt reader.ReaderOption
+	v   string
+}
+
+var c18WSharedOpts = map[string]*c18WShared{}
+var c18RSharedOpts = map[string]*c18RShared{}
+
+func c18SharedWOpt(k string) *c18WShared {
+	if c18WSharedOpts[k] == nil {
+		v := "shared-writer-option-" + k
+		c18WSharedOpts[k] = &c18WShared{opt: writer.WithFormatOptions(k, v), v: v}
+	}
+	return c18WSharedOpts[k]
+}
+
+func c18SharedROpt(k string) *c18RShared {
+	if c18RSharedOpts[k] == nil {
+		v := "shared-reader-option-" + k
+		c18RSharedOpts[k] = &c18RShared{opt: reader.WithFormatOptions(k, v), v: v}
+	}
+	return c18RSharedOpts[k]
+}
+
 func c18NewWriter(r *rand.Rand, idx int, mask int) *wModel {
 	m := &wModel{name: fmt.Sprintf("w%d", idx), indent: 4, fmtOpts: map[string]any{}, backend: &recBackend{}}
 	var opts []writer.WriterOption
@@ -102,10 +131,29 @@ func c18NewWriter(r *rand.Rand, idx int, mask int) *wModel {
 	}
 	if mask&8 != 0 {
 		k := gen.Pick(r, c18Keys)
-		v := fmt.Sprintf("%s-opts-%d", m.name, r.Intn(1000))
-		m.fmtOpts[k] = v
-		opts = append(opts, writer.WithFormatOptions(k, v))
-		m.optsDesc = append(m.optsDesc, "WithFormatOptions("+k+")")
+		if r.Intn(2) == 0 {
+			// the SAME option value handed to several constructors (a shared []WriterOption): it configures each
+			// writer it is passed to and nothing else
+			sh := c18SharedWOpt(k)
+			m.fmtOpts[k] = sh.v
+			opts = append(opts, sh.opt)
+			m.optsDesc = append(m.optsDesc, "WithFormatOptions("+k+")[option value shared between constructors]")
+			if r.Intn(2) == 0 {
+				k2 := c18Keys[0]
+				if k2 == k {
+					k2 = c18Keys[1]
+				}
+				v2 := fmt.Sprintf("%s-opts2-%d", m.name, r.Intn(1000))
+				m.fmtOpts[k2] = v2
+				opts = append(opts, writer.WithFormatOptions(k2, v2))
+				m.optsDesc = append(m.optsDesc, "WithFormatOptions("+k2+")")
+			}
+		} else {
+			v := fmt.Sprintf("%s-opts-%d", m.name, r.Intn(1000))
+			m.fmtOpts[k] = v
+			opts = append(opts, writer.WithFormatOptions(k, v))
+			m.optsDesc = append(m.optsDesc, "WithFormatOptions("+k+")")
+		}
 	}
 	if mask&16 != 0 {
 		m.store = &storage.StoreOptions{NoClobber: true, BackendOptions: m.name}
@@ -137,10 +185,27 @@ func c18NewReader(r *rand.Rand, idx int, mask int) *rModel {
 	}
 	if mask&4 != 0 {
 		k := gen.Pick(r, c18Keys)
-		v := fmt.Sprintf("%s-opts-%d", m.name, r.Intn(1000))
-		m.fmtOpts[k] = v
-		opts = append(opts, reader.WithFormatOptions(k, v))
-		m.optsDesc = append(m.optsDesc, "WithFormatOptions("+k+")")
+		if r.Intn(2) == 0 {
+			sh := c18SharedROpt(k)
+			m.fmtOpts[k] = sh.v
+			opts = append(opts, sh.opt)
+			m.optsDesc = append(m.optsDesc, "WithFormatOptions("+k+")[option value shared between constructors]")
+			if r.Intn(2) == 0 {
+				k2 := c18Keys[0]
+				if k2 == k {
+					k2 = c18Keys[1]
+				}
+				v2 := fmt.Sprintf("%s-opts2-%d", m.name, r.Intn(1000))
+				m.fmtOpts[k2] = v2
+				opts = append(opts, reader.WithFormatOptions(k2, v2))
+				m.optsDesc = append(m.optsDesc, "WithFormatOptions("+k2+")")
+			}
+		} else {
+			v := fmt.Sprintf("%s-opts-%d", m.name, r.Intn(1000))
+			m.fmtOpts[k] = v
+			opts = append(opts, reader.WithFormatOptions(k, v))
+			m.optsDesc = append(m.optsDesc, "WithFormatOptions("+k+")")
+		}
 	}
 	if mask&8 != 0 {
 		opts = append(opts, reader.WithUnserializeOptions(nil), reader.WithRetrieveOptions(nil), reader.WithSniffer(nil), reader.WithStoreRetriever(nil))
@@ -269,7 +334,7 @@ func c18CheckReader(c *core.C, m *rModel, trace []string, spdxSample []byte) boo
 func init() {
 	core.Register(&core.Prop{
 		ID: "C18", Level: "exploration",
-		Rule: "each case is a history of <=12 steps (thorough <=40) in a FRESH process (package-level state starts from the library defaults): construct a writer or reader with a subset of its options (the first 64+16 cases force every subset; nil arguments included), " +
+		Rule: "each case is a history of <=12 steps (thorough <=40) in a FRESH process (package-level state starts from the library defaults): construct a writer or reader with a subset of its options (the first 64+16 cases force every subset; nil arguments included; driver-option values are in half of the cases ONE option value handed to several constructors, optionally followed by a second driver option), " +
 			"make a per-call WriteStreamWithOptions / ParseStreamWithOptions (also with per-call driver, store and retrieve options), or configure a live instance through its exported Options (format, indentation, driver options, store/retrieve options). After EVERY step the monitor compares every live instance with its own model (documented defaults: no format, indent 4, NoClobber false, no format options) - Options fields, " +
 			"the format and indentation WriteStream actually produces, the options a recording storage backend receives from Store/Retrieve - and a constructor without options is checked against the documented defaults. Per-call options must be used for that call and be gone for the next default call. " +
 			"distinct = hash of the history; non-trivial = >=2 live instances with different configurations.",
@@ -287,6 +352,7 @@ func init() {
 
 func c18Case(c *core.C) {
 	r := c.R
+	c18WSharedOpts, c18RSharedOpts = map[string]*c18WShared{}, map[string]*c18RShared{}
 	spdxSample, err := writeDoc(c18Doc(), formats.SPDX23JSON, 2)
 	if err != nil {
 		c.Violatef("harness-sample", nil, "cannot write the SPDX sample: %v", err)
@@ -346,6 +412,9 @@ func c18Case(c *core.C) {
 			ws = append(ws, m)
 			trace = append(trace, fmt.Sprintf("%s=writer.New(%s)", m.name, strings.Join(m.optsDesc, ",")))
 			c.Cover(fmt.Sprintf("writer-option-subset:%d", mask))
+			if strings.Contains(strings.Join(m.optsDesc, ","), "shared between constructors") {
+				c.Cover("writer-built-from-an-option-value-shared-between-constructors")
+			}
 		case kind == 1:
 			rm := r.Intn(16)
 			if s == 0 && c.K < 128 {
@@ -355,6 +424,9 @@ func c18Case(c *core.C) {
 			rs = append(rs, m)
 			trace = append(trace, fmt.Sprintf("%s=reader.New(%s)", m.name, strings.Join(m.optsDesc, ",")))
 			c.Cover(fmt.Sprintf("reader-option-subset:%d", rm))
+			if strings.Contains(strings.Join(m.optsDesc, ","), "shared between constructors") {
+				c.Cover("reader-built-from-an-option-value-shared-between-constructors")
+			}
 		case kind == 6:
 			// configure a live writer through its exported Options: only this instance changes
 			m := ws[r.Intn(len(ws))]
